@@ -699,6 +699,15 @@ pub fn check(tier: Tier) -> i32 {
                     });
                 }
                 // parsers
+                // parsers are compared on deterministically parseable types only (the class the
+                // other engines use: e.g. an unsized array of dynamically sized elements that is
+                // followed by further fields has no agreed reading: Java reserves the trailing
+                // octets, Rust / Python / C++ parse elements greedily and fail)
+                let root_ty = inl.ancestry(&t.name).last().map(|d| d.id.clone()).unwrap_or_else(|| t.name.clone());
+                if classes::deterministic(&inl, &t.name).is_err() || classes::deterministic(&inl, &root_ty).is_err() {
+                    inc("types-skipped-not-deterministically-parseable", 1);
+                    continue;
+                }
                 // siblings (at any level of the path from the root) of a child type
                 let mut rivals: Vec<String> = vec![];
                 {
